@@ -32,8 +32,8 @@ RULE = (
     "interpreter outcome. Non-trivial = histories of length >= 2 and schedules with a real preemption (distinct)."
 )
 BOUND = {
-    "quick": "all histories of length <= 2 over 24 calls (plus repeats a,a,a); the all-pairs chain (1152 calls); fingerprint BFS depth 3 from each first call; all <=1-preemption schedules for 16 ordered pairs",
-    "thorough": "all histories of length <= 3 over 24 calls; the all-pairs chain; fingerprint BFS depth 5 from each first call; all <=1-preemption schedules for all ordered pairs; 2 preemptions on 12 pairs",
+    "quick": "all histories of length <= 2 over 25 calls (plus repeats a,a,a); the all-pairs chain (1152 calls); fingerprint BFS depth 3 from each first call; all <=1-preemption schedules for 16 ordered pairs",
+    "thorough": "all histories of length <= 3 over 25 calls; the all-pairs chain; fingerprint BFS depth 5 from each first call; all <=1-preemption schedules for all ordered pairs; 2 preemptions on 12 pairs",
 }
 ASSUMPTIONS = [
     "threads are explored at 'call' granularity under the GIL; compiled (mypyc/Cython) builds and state inside the standard "
@@ -41,8 +41,8 @@ ASSUMPTIONS = [
     "the deeply nested inputs are parsed on a fresh thread in every process, so that the stack available to them does not "
     "depend on the caller",
 ]
-CASE_DEADLINE = 120.0
-CONFIRM_DEADLINE = 300.0
+CASE_DEADLINE = 900.0  # a whole pair of threads (thousands of schedules) is one case; loaded machines are slow
+CONFIRM_DEADLINE = 1200.0
 
 POOL: list[tuple[str, str, Any]] = [
     ("x = 1\n", "exec", None),
@@ -68,6 +68,7 @@ POOL: list[tuple[str, str, Any]] = [
     ('k = f"""{a}\n"""\n', "exec", None),
     ('l = rf"""\\N{b}"""\n', "exec", None),
     ("[a = 1]\n", "exec", None),
+    ("s = 'é'; $X = ${'ü'} + $(ls é)\n", "exec", None),  # nodes built by shared helpers, on a line whose columns get converted
 ]
 N_FIXED = len(POOL)  # entries after this index are the 'deep' inputs appended by expected()
 
